@@ -30,6 +30,9 @@ func realDecode(def *refcodec.Msg, b []byte, entry int) (obj interface{}, m *nas
 	if entry == entryPlain {
 		m = nas.NewMessage()
 		err = m.PlainNasDecode(&in)
+		for i := range in {
+			in[i] = 0xa5 // the receive buffer is reused once the decoder has returned
+		}
 		if err == nil {
 			names, _, o := bodyPointers(m)
 			if len(names) == 1 {
@@ -44,6 +47,9 @@ func realDecode(def *refcodec.Msg, b []byte, entry int) (obj interface{}, m *nas
 		return nil, nil, fmt.Errorf("harness: no Decode%s", def.Name)
 	}
 	err = dec(&in)
+	for i := range in {
+		in[i] = 0xa5 // the receive buffer is reused once the decoder has returned
+	}
 	return
 }
 
